@@ -16,7 +16,7 @@ pub fn run(ctx: &mut Ctx) {
     let mut spec = scen::gen_compress_spec(true, big);
     spec.metadata = scen::cli_safe_metadata(&spec.metadata);
     let max_len = if big { 3 << 20 } else { 48 * 1024 };
-    let max_len = if spec.comp.expensive() { max_len.min(spec.cfg.expected_avg().saturating_mul(16).max(64)) } else { max_len };
+    let max_len = gen::len_cap(spec.comp, &spec.cfg, max_len);
     let (mut sspec, mut data) = gen::gen_source(&spec.cfg, max_len);
     // one run in 25: a chunk of several hundred KiB up to a few MiB is still open when the input
     // ends (rolling hash, large average, cheap compression, 0.3-3 MiB of input). That is where
